@@ -192,10 +192,15 @@ def c10(t: tr.Trace, d: dict, maxfun: int, abs_tol=1e-12, rel_tol=1e-20, max_uns
     obj = float(r.obj)
     if flag == 0 and cls == "small":
         f0 = t.calls[0]["v"] if t.calls else float("nan")
-        # first point may be averaged: use the model's own objbeg from the first ctrl event if present
-        ctrl = [e for e in t.events if e[0] == "ctrl"]
         thr = max(abs_tol, rel_tol * f0) if f0 == f0 else abs_tol
-        if not (obj <= thr * (1 + 1e-12)) and not d.get("avg"):
+        if d.get("avg"):
+            # averaged x0: f(x0) is the objective of the MEAN of the x0 samples = objval[0] of the first model (first ctrl event);
+            # the documented threshold is max(abs_tol, rel_tol * that); an exit straight at x0 tests abs_tol alone
+            import core as _core
+            ctrl = [e for e in t.events if e[0] == "ctrl"]
+            f0m = _core.key2f(ctrl[0][3]) if ctrl else float("nan")
+            thr = max(abs_tol, rel_tol * f0m) if (f0m == f0m and abs(f0m) != float("inf")) else abs_tol
+        if not (obj <= thr * (1 + 1e-12)):
             out.append(("C10:small-but-not-small|" + ctxt, "flag 0 'sufficiently small' but obj=%r > max(abs_tol, rel_tol*f(x0))=%r" % (obj, thr)))
     if flag == 0 and cls == "rhoend":
         exts = [e for e in t.events if e[0] == "ext" and e[2] == "rhoend"]
